@@ -142,7 +142,60 @@ func (c *Ctx) writersOfIn(f *ssa.Function, typ, field string) []*ssa.Store {
 	return out
 }
 
+// lruKeyTypes: for every common.Cache held in a field of database.cache, the
+// dynamic types of the keys handed to Add/Get/Remove. An LRU keyed by bc.Hash
+// values is not invalidated by Remove(&hash): the interface keys differ.
+func (c *Ctx) lruKeyTypes(rel string) map[string]map[string][]string {
+	out := map[string]map[string][]string{}
+	for f := range c.allFuncs() {
+		if f.Pkg == nil || trimMod(f.Pkg.Pkg.Path()) != rel {
+			continue
+		}
+		for _, ci := range allCalls(f, false) {
+			k := calleeKey(ci)
+			if k != "(*common.Cache).Add" && k != "(*common.Cache).Get" && k != "(*common.Cache).Remove" {
+				continue
+			}
+			a := ci.Common().Args
+			if len(a) < 2 {
+				continue
+			}
+			fld := "?"
+			if u, ok := a[0].(*ssa.UnOp); ok {
+				if _, fn, ok := fieldOf(u.X); ok {
+					fld = fn
+				}
+			}
+			kt := "?"
+			if mi, ok := canon(a[1]).(*ssa.MakeInterface); ok {
+				kt = trimMod(mi.X.Type().String())
+			}
+			if out[fld] == nil {
+				out[fld] = map[string][]string{}
+			}
+			out[fld][kt] = append(out[fld][kt], k[strings.LastIndex(k, ".")+1:]+" in "+fname(f))
+		}
+	}
+	return out
+}
+
 func ruleC21(c *Ctx) {
+	for fld, kts := range c.lruKeyTypes("database") {
+		var ts []string
+		for t := range kts {
+			ts = append(ts, t)
+		}
+		sortStrings(ts)
+		d := strings.Join(ts, ", ")
+		if len(ts) > 1 {
+			d = ""
+			for _, t := range ts {
+				d += t + " (" + strings.Join(kts[t], "; ") + ") "
+			}
+		}
+		_, unknown := kts["?"]
+		c.Require("keytype", "database.cache."+fld+": Add, Get and Remove use one key type", len(ts) == 1 && !unknown && fld != "?", "%s", d)
+	}
 	c.Explain("C21 (structural part): write→invalidate pairing + cached-object immutability + loop-variable capture. Decided: every store writer of a cached key class invalidates that cache entry after its database write (header, block hashes by height, main-chain hash per attached height, checkpoint per saved key); cache fills read the key class the writers write; no value returned by a cache lookup is mutated inside package database (a field store, or an append assigned back, through the returned pointer) — reads hand out copies; the deferred invalidation closures capture no per-loop variable. Not decided: fill/invalidate races between concurrent readers and writers; mutation of returned headers/blocks by callers outside package database.")
 	db := "database"
 	pair := func(fn, write, inval string) {
@@ -256,6 +309,29 @@ func ruleC24(c *Ctx) {
 	if at != nil {
 		ok := len(callsTo(at, false, "wallet.txInToUtxos")) == 1 && len(callsTo(at, false, "wallet.txOutToUtxos")) == 1 && len(callsTo(at, false, "(database/leveldb.Batch).Delete")) >= 1 && len(callsTo(at, false, "wallet.batchSaveUtxos")) == 1
 		c.Require("sibling", fname(at)+": deletes the inputs' UTXOs, saves the outputs' UTXOs", ok, "txInToUtxos→Delete, txOutToUtxos→batchSaveUtxos")
+	}
+	if at != nil {
+		// one transaction at a time, in block order: the outputs of a transaction are saved in the same
+		// iteration that deleted its inputs (a later transaction of the block may spend them: its delete
+		// must come after this save, or the output survives as a stale UTXO)
+		ok, d := true, "per-transaction delete → save"
+		saves := callsTo(at, false, "wallet.batchSaveUtxos")
+		if len(saves) == 0 {
+			ok, d = false, "no batchSaveUtxos call"
+		}
+		for _, sv := range saves {
+			h, body := innermostLoop(sv.Block())
+			if h == nil {
+				ok, d = false, "the outputs are saved outside the per-transaction loop (at "+c.Pos(sv.Pos())+")"
+				continue
+			}
+			for _, del := range callsTo(at, false, "(database/leveldb.Batch).Delete") {
+				if !body[del.Block()] {
+					ok, d = false, "input deletion at "+c.Pos(del.Pos())+" is not in the loop that saves the outputs"
+				}
+			}
+		}
+		c.Require("order", fname(at)+": each transaction's outputs are saved in the iteration that deleted its inputs", ok, "%s", d)
 	}
 	if dt != nil {
 		want := []string{"*protocol/bc.OriginalOutput", "*protocol/bc.VoteOutput"}
@@ -383,10 +459,9 @@ func ruleC25(c *Ctx) {
 	}
 	// filters
 	fu := c.Func("account", "(*utxoKeeper).findUtxos")
-	if fu != nil && len(fu.AnonFuncs) >= 1 {
-		an := fu.AnonFuncs[0]
+	if fu != nil {
 		ok := false
-		for _, s := range callsTo(an, false, "builtin:append") {
+		for _, s := range callsTo(fu, true, "builtin:append") { // in the function or any of its closures
 			have := factsAt(s)
 			for ft := range have {
 				if strings.Contains(ft, "field:account.UTXO.ValidHeight <= ") {
@@ -448,8 +523,57 @@ func ruleC26(c *Ctx) {
 		}
 		c.RequireFailureWithFacts("facts", rp, "ErrReserved", "lookup:account.utxoKeeper.reserved#1 = true")
 	}
+	// candidates: an output enters findUtxos' result only behind tests of its account, asset, vote key
+	// and maturity — at every place one is appended (closure, loop body or helper alike)
+	if fu := c.Func("account", "(*utxoKeeper).findUtxos"); fu != nil {
+		n, bad := 0, ""
+		for _, s := range callsTo(fu, true, "builtin:append") {
+			a := s.Common().Args
+			if len(a) < 2 || trimMod(a[0].Type().String()) != "[]*account.UTXO" {
+				continue
+			}
+			n++
+			conds := dominatingConds(s)
+			for _, need := range []struct {
+				what string
+				pred func(ssa.Value) bool
+			}{
+				{"account id", readsField("account.UTXO", "AccountID")},
+				{"asset id", readsField("account.UTXO", "AssetID")},
+				{"vote key", readsField("account.UTXO", "Vote")},
+				{"maturity", readsField("account.UTXO", "ValidHeight")},
+			} {
+				found := false
+				for _, cv := range conds {
+					if mentions(cv, need.pred, 6, nil) {
+						found = true
+					}
+				}
+				if !found {
+					bad = "append at " + c.Pos(s.Pos()) + " is not behind a test of the output's " + need.what
+				}
+			}
+		}
+		c.Require("guard", fname(fu)+": every candidate matches account, asset and vote key and is mature", n >= 1 && bad == "", "%d append site(s) %s", n, bad)
+	}
 	rs := c.Func("account", "(*utxoKeeper).Reserve")
 	if rs != nil {
+		// selection and marking form one critical section: the write lock is held at the selection
+		// and is not released on any path from there to the insert into `reserved`
+		for _, mu := range mapUpdatesOf(rs, "account.utxoKeeper", "reserved") {
+			sel := callsTo(rs, false, "(*account.utxoKeeper).optUTXOs")
+			ok, d := len(sel) >= 1, "no call to optUTXOs in Reserve"
+			for _, s := range sel {
+				if !li.at[s].holds("account.utxoKeeper.mtx", true) {
+					ok, d = false, "optUTXOs runs with locks "+li.at[s].String()+" (write lock needed: the choice is acted upon)"
+				} else if unlockBetweenInstrs(s, mu) {
+					ok, d = false, "a mutex is released between the selection at "+c.Pos(s.Pos())+" and the insert at "+c.Pos(mu.Pos())
+				} else if ok {
+					d = "selection and insert under one write lock"
+				}
+			}
+			c.Require("lockset", fname(rs)+": outputs are selected and marked reserved in one critical section", ok, "%s", d)
+		}
 		c.RequireGuard("guard", c.ScopeFunc(rs), "insufficient / immature / reserved classes", paramN(3))
 		for _, e := range []string{"ErrInsufficient", "ErrImmature", "ErrReserved"} {
 			c.RequireFailureWithFacts("facts", rs, e)
